@@ -211,7 +211,7 @@ fn specs() -> Vec<CheckSpec> {
     CheckSpec {
         id: "C14",
         profile: Profile::Adaptive,
-        more_profiles: &[Profile::Adaptive, Profile::TwoHop],
+        more_profiles: &[Profile::Adaptive, Profile::TwoHop, Profile::Adaptive, Profile::Admin],
         mk: mk_c14,
         level: "exploration",
         rule: "pools created from adaptive fee tiers with constants drawn over the whole valid region (boundary biased: control factor 0 / 99999, max accumulator 0 / u32 limit, group size = every divisor of the spacing, decay = filter+1 .. 3600), permissioned tiers with a trade-enable time; LPs/traders/keeper under the core faults plus clock stall / jump (1 s, 59-61 s, 3599-3601 s, days, decades) / back-step and same-second bursts; a naive group-by-group model written from the documentation (no skip optimisation) gives the reference after the elapsed-time class and the rate of every tick group; each traced step must charge the model's rate on every group its price interval touches, accumulator <= max, static <= rate <= 100000, control factor 0 => static rate; after the swap the stored reference, accumulator (group where the swap ended or adjacent) and major-swap timestamp (1e-9 tolerance band) must follow the rules; swaps before the trade-enable time must fail and only those; a case is one (instruction, direction, elapsed-time class, control factor 0, #steps, skip used, saturated) tuple",
